@@ -176,6 +176,11 @@ impl Knap {
         Ok(p as isize)
     }
 }
+/// 10..=16 items (the sizes of the documentation example and beyond): long searches with many open nodes
+/// and heavy re-convergence on the remaining capacity
+pub fn knap_large_strategy() -> impl Strategy<Value = Knap> {
+    (10usize..=16).prop_flat_map(|n| (15usize..=60, prop::collection::vec(0usize..=30, n), prop::collection::vec(1usize..=15, n), prop::collection::vec(1usize..=2, n), any::<bool>(), any::<bool>()).prop_map(|(cap, profit, weight, qty, use_dominance, use_rub)| Knap { cap, profit, weight, qty, use_dominance, use_rub }))
+}
 pub fn knap_strategy() -> impl Strategy<Value = Knap> {
     (1usize..=7).prop_flat_map(|n| (0usize..=30, prop::collection::vec(0usize..=12, n), prop::collection::vec(1usize..=9, n), prop::collection::vec(1usize..=3, n), any::<bool>(), any::<bool>()).prop_map(|(cap, profit, weight, qty, use_dominance, use_rub)| Knap { cap, profit, weight, qty, use_dominance, use_rub }))
 }
